@@ -23,6 +23,7 @@ TS = 'outrank.task_summary'
 
 
 def run(repo, chk, tier):
+    rows_as_read(repo, chk)
     selection(repo, chk)
     summary_frame(repo, chk)
     interactions(repo, chk)
@@ -30,6 +31,22 @@ def run(repo, chk, tier):
 
 
 SUBSETTING = {'head', 'tail', 'iloc', 'loc', 'sample', 'drop_duplicates', 'query', 'nlargest', 'nsmallest', 'dropna', 'truncate', 'take', 'filter', 'where', 'mask'}
+
+
+def rows_as_read(repo, chk):
+    """C18.0 - every row of the pairwise table takes part in the medians: between reading the table and handing it on, rows may be re-ordered but not
+    removed (drop_duplicates collapses equal scores of a pair from different batches; head / query / dropna / sample cut rows)."""
+    fn = repo.mod(TS).funcs.get('read_and_sort_triplets')
+    if fn is None:
+        return
+    m = fn.module
+    CUTS = ('drop_duplicates', 'dropna', 'head', 'tail', 'sample', 'query', 'nlargest', 'nsmallest', 'drop', 'unique', 'groupby')
+    for c in own_nodes(fn.node):
+        if isinstance(c, ast.Call) and isinstance(c.func, ast.Attribute) and c.func.attr in CUTS:
+            chk.bad('C18.0', 'R11', fn.site(c), ast.unparse(c)[:100], f'rows of the table that was read are removed / collapsed ({c.func.attr}) before the ranking is built: a pair that received the same score in two '
+                    'batches counts once, so the per-feature median, the order and the aggregated scores change')
+            return
+    chk.ok('C18.0', 'R11', fn.site(), 'read_and_sort_triplets', 'the table is handed on with all the rows that were read (re-ordered only)')
 
 
 def _row_binding(fn, lp, table):
